@@ -46,6 +46,8 @@ structure Tr where
   rx      : Bytes
   pending : Bytes := []
   sloppy  : Bool := false
+  message : Bool := false   -- a message-based transport (USBTMC, GPIB, VXI-11 without term char): `read_until` ignores the
+                            -- terminator and hands out the whole device message, terminators inside it included
   log    : List Call := []
   deriving Repr
 
@@ -84,6 +86,9 @@ def splitAfter (term : Bytes) : Bytes → Option (Bytes × Bytes)
 /-- `QMI_Transport.read_until(term, timeout)` -/
 def Tr.readUntil (t : Tr) (term : Bytes) (to : Option Nat) : Tr × Except PyExc Bytes :=
   let t' := { t with log := t.log ++ [.readUntil term to] }
+  if t.message then
+    if t.rx.isEmpty then (t', .error .timeout) else ({ t' with rx := [] }, .ok t.rx)
+  else
   match splitAfter term t.rx with
   | some (p, r) => ({ t' with rx := r }, .ok p)
   | none =>
